@@ -243,7 +243,9 @@ func NewRelyingPartyOIDC(ctx context.Context, issuer, clientID, clientSecret, re
 		return nil, err
 	}
 	if rp.useSigningAlgsFromDiscovery {
-		rp.verifierOpts = append(rp.verifierOpts, WithSupportedSigningAlgorithms(discoveryConfiguration.IDTokenSigningAlgValuesSupported...))
+		// verifierOpts may alias the slice passed to WithVerifierOpts:
+		// cap it, so that append never writes into the caller's spare capacity.
+		rp.verifierOpts = append(rp.verifierOpts[:len(rp.verifierOpts):len(rp.verifierOpts)], WithSupportedSigningAlgorithms(discoveryConfiguration.IDTokenSigningAlgValuesSupported...))
 	}
 	endpoints := GetEndpoints(discoveryConfiguration)
 	rp.oauthConfig.Endpoint = endpoints.Endpoint
